@@ -165,6 +165,7 @@ class FormulaMaterializer(metaclass=FormulaMaterializerMeta):
 
         self.factor_cache: dict[str, EvaluatedFactor] = {}
         self.encoded_cache: dict[Union[str, tuple[str, bool]], Any] = {}
+        self.encoder_state_cache: dict[str, tuple[Factor.Kind, dict[str, Any]]] = {}
 
     def _init(self) -> None:
         pass  # pragma: no cover
@@ -780,7 +781,10 @@ class FormulaMaterializer(metaclass=FormulaMaterializerMeta):
                         raise FactorEncodingError(
                             factor
                         )  # pragma: no cover; it is not currently possible to reach this sentinel
-                spec.encoder_state[factor.expr] = (factor.metadata.kind, encoder_state)
+                self.encoder_state_cache[factor.expr] = (
+                    factor.metadata.kind,
+                    encoder_state,
+                )
 
                 # Only encode once for encodings where we can just drop a field
                 # later on below.
@@ -790,6 +794,10 @@ class FormulaMaterializer(metaclass=FormulaMaterializerMeta):
                     else (factor.expr, reduced_rank)
                 )
                 self.encoded_cache[cache_key] = encoded
+
+            # Record the encoder state on every spec that uses this factor (the
+            # encoding itself may have been cached while building another spec).
+            spec.encoder_state[factor.expr] = self.encoder_state_cache[factor.expr]
         else:
             encoded = as_columns(
                 factor.values
